@@ -63,7 +63,7 @@ theorem psdComponent_scale (width dt c : ℝ) (n : ℕ) (wins : List (List ℝ))
 def propRec (A B C : ℝ) (w : ℝ × ℝ × List ℝ) : Rec3 ℝ :=
   { dt := w.1, deg := w.2.1, ns := w.2.2.map (A * ·), ew := w.2.2.map (B * ·), vt := w.2.2.map (C * ·) }
 
-theorem filterMap_getElem?_map {β γ : Type} (f : β → γ) (l : List β) (idx : List ℕ) :
+theorem filterMap_getElem_map {β γ : Type} (f : β → γ) (l : List β) (idx : List ℕ) :
     idx.filterMap (fun i => (l.map f)[i]?) = (idx.filterMap (fun i => l[i]?)).map f := by
   induction idx with
   | nil => rfl
@@ -78,7 +78,7 @@ theorem hvsr_proportional_diffuse (cfg : ProcCfg ℝ) (fft : FftState) (pol : Po
     (h : processDiffuse cfg fft pol (wins.map (propRec A B C)) = .ok (st, kept, row)) :
     ∀ q ∈ row, q = Real.sqrt ((A ^ 2 + B ^ 2) / C ^ 2) := by
   obtain ⟨n, r0, rest, sh, sv, q, -, -, hk, hs, hq, hrow⟩ := C17.diffuse_def cfg fft pol _ st kept row h
-  rw [filterMap_getElem?_map] at hk
+  rw [filterMap_getElem_map] at hk
   generalize hkw : kept.filterMap (fun i => wins[i]?) = kw at hk
   have hns : (r0 :: rest).map (·.ns) = (kw.map (·.2.2)).map (fun x => x.map (A * ·)) := by
     rw [← hk]; simp [propRec, Function.comp]
